@@ -318,7 +318,9 @@ def mp_kalman_predict(fam: MpFam, u, Q, R, x, P):
     # first-order amplification of a perturbation of the prior covariance: P+ = M P M^T + ..., M = (I - K C) A
     I = mp.eye(Pm.rows)
     Mabs = (I + KC) * Aa
+    scaleP_m = Pm_abs + KC * Pm_abs          # entry-wise pre-cancellation magnitude of the posterior covariance
     return {"P": Pp, "xm": xm, "Pm": Pm, "S": S, "K": K, "gx": gx, "kappa": cond2(S), "scaleP": float(scaleP),
+            "scaleP_entries": [[float(scaleP_m[i, j]) for j in range(scaleP_m.cols)] for i in range(scaleP_m.rows)],
             "xm_pre": xm_pre, "g_pre": fam.gpre(xm_pre, u), "K_pre": K_pre,
             "gain2": float((Pm.rows * mmax(Mabs)) ** 2)}
 
@@ -331,8 +333,51 @@ def mp_kalman_update(pre, y):
     out = dict(pre)
     out["x"] = pre["xm"] + pre["K"] * e
     e_pre = mabs(y) + pre["g_pre"]
-    out["scalex"] = float(mmax(pre["xm_pre"] + pre["K_pre"] * e_pre))
+    sx = pre["xm_pre"] + pre["K_pre"] * e_pre
+    out["scalex"] = float(mmax(sx))
+    out["scalex_entries"] = [float(v) for v in sx]      # per component: a small component is not judged by a large one
     return out
+
+
+def mp_ukf_documented(fam: MpFam, kk, u, y, Q, R, x, P):
+    """The UKF exactly as the class documents it (Simon, sec. 14.3; sigma points from the columns of the lower Cholesky
+    factor, second sigma set drawn from the predicted estimate), at 50 digits — the oracle for NON-LINEAR systems, where
+    the Kalman posterior is not the reference. Raises ValueError / ZeroDivisionError when a factor does not exist."""
+    n = len(x)
+    u, y, x = V(u), V(y), V(x)
+    Q, R, P = M(Q), M(R), M(P)
+    kk = mp.mpf(kk)
+    w0, wr = kk / (n + kk), 1 / (2 * (n + kk))
+
+    def sigma(xc, Pc):
+        Ms = (n + kk) * Pc
+        L = mp.cholesky((Ms + Ms.T) / 2)
+        return [xc] + [xc + L[:, i] for i in range(n)] + [xc - L[:, i] for i in range(n)]
+
+    def wmean(vals):
+        z = w0 * vals[0]
+        for v in vals[1:]:
+            z = z + wr * v
+        return z
+
+    def cov(a, b):
+        z = w0 * a[0] * b[0].T
+        for i in range(1, len(a)):
+            z = z + wr * a[i] * b[i].T
+        return z
+
+    xs = [fam.f(pt, u) for pt in sigma(x, P)]
+    xe = wmean(xs)
+    ex = [xe - v for v in xs]
+    Pm = Q + cov(ex, ex)
+    pts2 = sigma(xe, Pm)
+    ex2 = [xe - v for v in pts2]
+    ys = [fam.g(pt, u) for pt in pts2]
+    ye = wmean(ys)
+    ey = [ye - v for v in ys]
+    Py = R + cov(ey, ey)
+    K = cov(ex2, ey) * mp.inverse(Py)
+    return {"x": xe + K * (y - ye), "P": Pm - K * Py * K.T}
 
 
 class NpFam:
@@ -429,6 +474,22 @@ def mp_to_list(v):
     return [float(a) for a in v]
 
 
+def ratio(t: torch.Tensor, ref, tol) -> float:
+    """max over entries of |t - ref| / tol, `tol` a number or a tensor of t's shape (entry-wise tolerance);
+    inf when shapes differ or a value is not finite"""
+    r = torch.tensor([float(a) for a in ref], dtype=torch.float64)
+    tt = t.detach().double().flatten()
+    if tt.numel() != r.numel():
+        return float("inf")
+    if tt.numel() == 0:
+        return 0.0
+    d = (tt - r).abs()
+    if not bool(torch.isfinite(d).all()):
+        return float("inf")
+    tl = tol.double().flatten() if isinstance(tol, torch.Tensor) else torch.full_like(d, float(tol))
+    return float((d / tl).max())
+
+
 def maxdiff(t: torch.Tensor, ref) -> float:
     """max |t - ref| with ref an mp matrix / list of Fractions / floats (compared in float64 after exact
     subtraction is unnecessary: both sides are O(scale), the tolerance is >= 64 eps scale)"""
@@ -436,6 +497,8 @@ def maxdiff(t: torch.Tensor, ref) -> float:
         r = torch.tensor([float(a) for a in ref], dtype=torch.float64)
     else:
         r = torch.tensor([float(a) for a in ref], dtype=torch.float64)
+    if t.numel() != r.numel():
+        return float("inf")
     d = (t.double().flatten() - r).abs()
     if d.numel() == 0:
         return 0.0
